@@ -581,6 +581,33 @@ pub fn directed_inputs(rng: &mut Rng, thorough: bool) -> Vec<(String, Vec<u8>)> 
         d.truncate(BLOCK - 1);
         v.push((format!("many-offset-codes {}..={} x{}", codes_lo, codes_hi, per), d));
     }
+    // small ABSOLUTE byte values with unused values in between (direct weight description, odd / even number of
+    // weights, zero weights next to the last listed one)
+    for &m in &[2u8, 3, 4, 5, 7, 8, 9, 13, 15, 16, 17, 31, 126, 127] {
+        for hole in [m.wrapping_sub(1), m / 2, 0] {
+            let vals: Vec<u8> = (0..=m).filter(|x| *x != hole || m < 2).collect();
+            if vals.len() < 2 {
+                continue;
+            }
+            let len = rng.range(1100, 4000) as usize;
+            let d: Vec<u8> = (0..len).map(|_| vals[rng.below(vals.len() as u64) as usize]).collect();
+            v.push((format!("abs-alphabet 0..={} without {}", m, hole), d));
+        }
+    }
+    // a block whose literals add ONE value inside the range of the previous block's table (reuse decision must
+    // notice that the old table has no code for it), just below a power of two so that the tables are close
+    for &(n, missing) in &[(16u8, 7u8), (8, 3), (4, 1), (16, 0), (32, 9), (8, 6)] {
+        let first: Vec<u8> = (0..n).filter(|x| *x != missing).collect();
+        let all: Vec<u8> = (0..n).collect();
+        let mut d: Vec<u8> = (0..BLOCK).map(|_| first[rng.below(first.len() as u64) as usize]).collect();
+        let extra = rng.range(2000, 9000) as usize;
+        d.extend((0..extra).map(|_| all[rng.below(all.len() as u64) as usize]));
+        v.push((format!("next-block-adds-value {} of 0..{}", missing, n), d));
+        // and the other direction (a value disappears)
+        let mut d: Vec<u8> = (0..BLOCK).map(|_| all[rng.below(all.len() as u64) as usize]).collect();
+        d.extend((0..extra).map(|_| first[rng.below(first.len() as u64) as usize]));
+        v.push((format!("next-block-drops-value {} of 0..{}", missing, n), d));
+    }
     v
 }
 
